@@ -155,6 +155,12 @@ func c09(c *Ctx) {
 	r.Rule("R09.G", "grouping: the container decoder builds one message object per item (allocated inside the loop): results grouped in one msg_container are dispatched one by one, not the last one n times", 1)
 	c.containerItemsDistinct("R09.G")
 
+	// ---- R09.Z: compressed answers are unpacked whole ----------------------------------------------------
+	r.Rule("R09.Z", "gzip-packed results reach their caller: the unpacking loop ends on a failing reader and uses the bytes of every Read before it looks at the error (the last chunk arrives together with io.EOF)", 1)
+	if gz := c.fn("R09.Z", load.ObjPkg, "*GzipPacked", "popMessageAsBytes"); gz != nil {
+		c.readerLoops("R09.Z", []*ssa.Function{gz})
+	}
+
 	// ---- R09.L: lock discipline of the two tables -------------------------------------------------------
 	r.Rule("R09.L", "the waiter and hint tables are maps shared by the callers and the receive loop: every write of the map (insert, delete, replace) is inside the exclusive Lock section of the table's mutex, every read inside a Lock or RLock section", 8)
 	for _, tbl := range []string{"SyncIntObjectChan", "SyncIntReflectTypes"} {
